@@ -212,6 +212,15 @@ def run(ctx, rep):
     # "each track retrievable under the id it was added with": the decoder restores decoded unique ids
     from .C01 import uniqueid
     uniqueid(ctx, rep)
+    # "decoding succeeds": the sequential point-cloud reader the animation coder inherits rejects nothing
+    # the writer produces - item-count plausibility guards must be backed by per-item consumption
+    from .C01 import g1justify
+    rep.rules_text.append("G1JUSTIFY (sequential point-cloud reader): an input-relative rejection of an item count is backed by at least that many bytes consumed per item (keyframes compress to far less than a byte per frame)")
+    g1justify(ctx, rep, only_class={"draco::PointCloudSequentialDecoder", "draco::PointCloudDecoder",
+                                    "draco::AttributesDecoder", "draco::SequentialAttributeDecodersController",
+                                    "draco::SequentialAttributeDecoder", "draco::SequentialIntegerAttributeDecoder",
+                                    "draco::SequentialQuantizationAttributeDecoder", "draco::KeyframeAnimationDecoder"},
+              floor=1)
 
 
 def timestamp_slot(ctx, rep, led):
